@@ -207,6 +207,9 @@ pub mod dalek_xpubkey_serde {
 		String::deserialize(deserializer)
 			.and_then(|string| from_hex(&string).map_err(|err| Error::custom(err.to_string())))
 			.and_then(|bytes: Vec<u8>| {
+				if bytes.len() < 32 {
+					return Err(Error::custom("invalid length"));
+				}
 				let mut b = [0u8; 32];
 				b.copy_from_slice(&bytes[0..32]);
 				Ok(xDalekPublicKey::from(b))
@@ -271,6 +274,9 @@ pub mod option_dalek_pubkey_base64 {
 			Some(string) => base64::decode(&string)
 				.map_err(|err| Error::custom(err.to_string()))
 				.and_then(|bytes: Vec<u8>| {
+					if bytes.len() < 32 {
+						return Err(Error::custom("invalid length"));
+					}
 					let mut b = [0u8; 32];
 					b.copy_from_slice(&bytes[0..32]);
 					DalekPublicKey::from_bytes(&b)
@@ -313,6 +319,9 @@ pub mod option_dalek_pubkey_serde {
 			Some(string) => from_hex(&string)
 				.map_err(|err| Error::custom(err.to_string()))
 				.and_then(|bytes: Vec<u8>| {
+					if bytes.len() < 32 {
+						return Err(Error::custom("invalid length"));
+					}
 					let mut b = [0u8; 32];
 					b.copy_from_slice(&bytes[0..32]);
 					DalekPublicKey::from_bytes(&b)
@@ -352,6 +361,9 @@ pub mod option_xdalek_pubkey_serde {
 			Some(string) => from_hex(&string)
 				.map_err(|err| Error::custom(err.to_string()))
 				.and_then(|bytes: Vec<u8>| {
+					if bytes.len() < 32 {
+						return Err(Error::custom("invalid length"));
+					}
 					let mut b = [0u8; 32];
 					b.copy_from_slice(&bytes[0..32]);
 					Ok(Some(xDalekPublicKey::from(b)))
@@ -366,7 +378,6 @@ pub mod dalek_sig_serde {
 	use ed25519_dalek::Signature as DalekSignature;
 	use serde::de::Error;
 	use serde::{Deserialize, Deserializer, Serializer};
-	use std::convert::TryFrom;
 
 	use crate::grin_util::{from_hex, ToHex};
 
@@ -386,9 +397,12 @@ pub mod dalek_sig_serde {
 		String::deserialize(deserializer)
 			.and_then(|string| from_hex(&string).map_err(|err| Error::custom(err.to_string())))
 			.and_then(|bytes: Vec<u8>| {
+				if bytes.len() < 64 {
+					return Err(Error::custom("invalid length"));
+				}
 				let mut b = [0u8; 64];
 				b.copy_from_slice(&bytes[0..64]);
-				DalekSignature::try_from(b).map_err(|err| Error::custom(err.to_string()))
+				DalekSignature::from_bytes(&b).map_err(|err| Error::custom(err.to_string()))
 			})
 	}
 }
@@ -398,7 +412,6 @@ pub mod option_dalek_sig_serde {
 	use ed25519_dalek::Signature as DalekSignature;
 	use serde::de::Error;
 	use serde::{Deserialize, Deserializer, Serializer};
-	use std::convert::TryFrom;
 
 	use crate::grin_util::{from_hex, ToHex};
 
@@ -422,9 +435,12 @@ pub mod option_dalek_sig_serde {
 			Some(string) => from_hex(&string)
 				.map_err(|err| Error::custom(err.to_string()))
 				.and_then(|bytes: Vec<u8>| {
+					if bytes.len() < 64 {
+						return Err(Error::custom("invalid length"));
+					}
 					let mut b = [0u8; 64];
 					b.copy_from_slice(&bytes[0..64]);
-					DalekSignature::try_from(b)
+					DalekSignature::from_bytes(&b)
 						.map(Some)
 						.map_err(|err| Error::custom(err.to_string()))
 				}),
@@ -439,7 +455,6 @@ pub mod option_dalek_sig_base64 {
 	use ed25519_dalek::Signature as DalekSignature;
 	use serde::de::Error;
 	use serde::{Deserialize, Deserializer, Serializer};
-	use std::convert::TryFrom;
 
 	///
 	pub fn serialize<S>(sig: &Option<DalekSignature>, serializer: S) -> Result<S::Ok, S::Error>
@@ -461,9 +476,12 @@ pub mod option_dalek_sig_base64 {
 			Some(string) => base64::decode(&string)
 				.map_err(|err| Error::custom(err.to_string()))
 				.and_then(|bytes: Vec<u8>| {
+					if bytes.len() < 64 {
+						return Err(Error::custom("invalid length"));
+					}
 					let mut b = [0u8; 64];
 					b.copy_from_slice(&bytes[0..64]);
-					DalekSignature::try_from(b)
+					DalekSignature::from_bytes(&b)
 						.map(Some)
 						.map_err(|err| Error::custom(err.to_string()))
 				}),
@@ -584,6 +602,9 @@ pub mod uuid_base64 {
 				base64::decode(&string).map_err(|err| Error::custom(err.to_string()))
 			})
 			.and_then(|bytes: Vec<u8>| {
+				if bytes.len() < 16 {
+					return Err(Error::custom("invalid length"));
+				}
 				let mut b = [0u8; 16];
 				b.copy_from_slice(&bytes[0..16]);
 				Ok(Uuid::from_bytes(b))
